@@ -27,6 +27,9 @@ const ANAME: [&str; 3] = ["static", "in-prefix", "other"];
 enum Op {
     Connect(crate::fsm::Role, usize),
     Disconnect(crate::fsm::Role, usize),
+    /// the neighbour answers the daemon's OPEN with one the message decoder itself refuses
+    /// (unsupported version): the session ends without the FSM having seen a message
+    BadOpen(crate::fsm::Role, usize),
     Enable,
     Disable,
     Delete,
@@ -50,6 +53,7 @@ fn op_name(o: &Op) -> String {
     match o {
         Op::Connect(r, a) => format!("connect({},{})", rname(*r), ANAME[*a]),
         Op::Disconnect(r, a) => format!("disconnect({},{})", rname(*r), ANAME[*a]),
+        Op::BadOpen(r, a) => format!("unacceptable_open({},{})", rname(*r), ANAME[*a]),
         Op::Enable => "enable(static)".into(),
         Op::Disable => "disable(static)".into(),
         Op::Delete => "delete(static)".into(),
@@ -369,6 +373,33 @@ impl Model for AcceptModel {
                     sys.peers.remove(a);
                 }
             }
+            Op::BadOpen(role, a) => {
+                let key = (rk(*role), *a);
+                let Some(mut l) = sys.live.remove(&key) else { return false };
+                let ended = sys.rt.block_on(async {
+                    use tokio::io::AsyncWriteExt;
+                    // OPEN, version 3, AS 65001, hold 90, id 10.0.0.9, no optional parameters
+                    let mut open = vec![0xffu8; 16];
+                    open.extend_from_slice(&[0, 29, 1, 3, 0xfd, 0xe9, 0, 90, 10, 0, 0, 9, 0]);
+                    let wrote = match l.stream.as_mut() {
+                        Some(st) => st.write_all(&open).await.is_ok(),
+                        None => false,
+                    };
+                    let mut ended = false;
+                    if let Some(j) = l.join.take() {
+                        ended = tokio::time::timeout(WAIT, j).await.is_ok();
+                    }
+                    l.stream = None;
+                    wrote && ended
+                });
+                if !ended {
+                    machinery("session task did not end after an OPEN with an unsupported version".into());
+                }
+                let still = sys.live.keys().any(|(_, aa)| aa == a);
+                if !still && sys.peers.get(a).is_some_and(|(_, dynamic)| *dynamic) {
+                    sys.peers.remove(a);
+                }
+            }
             Op::Enable | Op::Disable | Op::Delete | Op::Reset | Op::Update | Op::UpdateSame => {
                 if !sys.peers.get(&0).is_some_and(|(_, dynamic)| !*dynamic) {
                     return false; // the configured neighbour is gone (a dynamic one may have taken its address)
@@ -583,6 +614,10 @@ fn accept_models() -> Vec<AcceptModel> {
             for a in 0..3 {
                 v.push(Op::Disconnect(r, a));
             }
+        }
+        for r in [crate::fsm::Role::Passive, crate::fsm::Role::Active] {
+            v.push(Op::BadOpen(r, 0));
+            v.push(Op::BadOpen(r, 1));
         }
         v.extend([Op::Disable, Op::Enable, Op::Delete, Op::Reset, Op::Update, Op::UpdateSame]);
         v
